@@ -6,6 +6,7 @@ import VaxisModel.Model.ListGen
 import VaxisModel.Lemmas.SimpleList
 import VaxisModel.Lemmas.Pager
 import VaxisModel.Lemmas.Scrollbar
+import VaxisModel.Lemmas.DynList
 
 namespace VaxisModel.Props.C19
 open VaxisModel VaxisModel.Model
@@ -135,5 +136,56 @@ theorem scrollbar_in_track (total view top h : Int)
 example : bar 10 3 7 5 = some ⟨3, 1⟩ := by decide
 
 end Scrollbar
+
+/-! ## vxfw/list `Dynamic`
+
+The Builder is any list `hs` of widget heights (`nil` past its end).  `Gen.ListFacts.dynCursorGuard`
+is the regenerated fact that the cursor-gutter block checks `d.cursor >= d.scroll.top` (F119). -/
+
+section Dyn
+open VaxisModel.Model.DynList VaxisModel.Lemmas.DynList
+
+/-- The full layout statement: every `Draw`, from any state, for any gap, returns its children in
+    index order, contiguous (each directly below the previous one plus the gap — hence without
+    overlap for gap ≥ 0) and with the builder's heights.  It is FALSE of the code for gap > 0 after an
+    upward scroll (finding F119c, `Witness/F119.lean`); the proved theorem is `dyn_layout_partial`. -/
+def dyn_layout_full : Prop :=
+  ∀ (cfg : Cfg) (hs : List Nat) (s : St) (W H : Nat) (s' : St) (cs : List Child), s.top < U →
+    draw Gen.ListFacts.dynCursorGuard cfg hs s W H = .ok (s', cs) → Contig cfg.gap cs ∧ Heights hs cs
+
+/-- **Layout (partial: gap = 0, or no upward scroll in this draw)** — from ANY scroll state (cursor,
+    top, offset, pending scroll, wants-cursor flag — reachable or not), any builder heights, any
+    viewport: the children returned by `Draw` are in index order, each directly below the previous
+    one plus the gap, and each has the height of its builder widget.  Missing for the full
+    statement: children inserted above the top by `insertChildren` ignore a non-zero gap. -/
+theorem dyn_layout_partial (cfg : Cfg) (hs : List Nat) (s : St) (W H : Nat) (s' : St) (cs : List Child)
+    (hU : s.top < U)
+    (hg : cfg.gap = 0 ∨ ¬ (0 < - (s.offset + s.pending) ∧ s.top ≠ 0))
+    (he : draw Gen.ListFacts.dynCursorGuard cfg hs s W H = .ok (s', cs)) :
+    Contig cfg.gap cs ∧ Heights hs cs :=
+  draw_layout _ cfg hs s W H hU hg s' cs he
+
+/-- Contiguity means: consecutive indices, no overlap and no hole (unfolding of `Contig`). -/
+theorem contig_pair (gap : Int) (c d : Child) (rest : List Child) (h : Contig gap (c :: d :: rest)) :
+    d.idx = c.idx + 1 ∧ d.row = c.row + (c.height : Int) + gap ∧ Contig gap (d :: rest) :=
+  ⟨h.1.1, h.1.2, h.2⟩
+
+/-- Non-vacuity of `dyn_layout_partial`: three items, scrolled up by one row from the second. -/
+example : (match draw true ⟨0, false⟩ [2, 3, 1] ⟨1, 1, 0, -1, false⟩ 4 3 with
+    | .ok (_, cs) => cs.map (fun c => (c.idx, c.row, c.height)) == [(0, -1, 2), (1, 1, 3)]
+    | .error _ => false) = true := by decide
+
+/-- **No panic with 0 items** — for a Builder that has no widgets, every history of
+    SetCursor/NextItem/PrevItem/wheel/SetPendingScroll/Draw (cursors below 2^63, bounded draw
+    contexts, any gap, with or without the cursor gutter) runs without panic. -/
+theorem dyn_no_panic_empty (cfg : Cfg) (ops : List Op) (ho : ∀ op ∈ ops, OpOk op) :
+    ∃ s, run Gen.ListFacts.dynCursorGuard cfg [] init ops = .ok s :=
+  let ⟨s, he, _⟩ := run_empty _ cfg ops init ⟨rfl, by decide⟩ ho
+  ⟨s, he⟩
+
+/-- The source carries the F119 guard. -/
+theorem dyn_cursor_guard_present : Gen.ListFacts.dynCursorGuard = true := by decide
+
+end Dyn
 
 end VaxisModel.Props.C19
